@@ -103,6 +103,9 @@ pub struct Step {
     pub waiters: u8,
     /// the sender itself awaits the ticket before its next step
     pub inline: bool,
+    /// the first extra waiter gives up (drops its ticket clone) after this many ms if still unresolved
+    #[serde(default)]
+    pub cancel_after: Option<u64>,
 }
 
 #[derive(Clone, Debug, Serialize, Deserialize, PartialEq, Eq, Hash)]
@@ -280,6 +283,14 @@ pub async fn waiter(ticket: Ticket, op: u32, w: u8) {
     }
 }
 
+/// a waiter that is cancelled (its ticket clone dropped) after `ms` if the ticket has not resolved by then
+pub async fn cancelling_waiter(ticket: Ticket, op: u32, w: u8, ms: u64) {
+    match tokio::time::timeout(Duration::from_millis(ms), ticket).await {
+        Ok(()) => log(Ev::Resolved { op, waiter: w }),
+        Err(_) => log(Ev::Note { what: "waiter-cancelled", a: op as i64, b: w as i64 }),
+    }
+}
+
 pub async fn sender_task(si: usize, steps: Vec<Step>, job: Job, jobno: u8) {
     let mut handles = Vec::new();
     for (i, st) in steps.iter().enumerate() {
@@ -290,7 +301,10 @@ pub async fn sender_task(si: usize, steps: Vec<Step>, job: Job, jobno: u8) {
         log(Ev::CtlSend { job: jobno, sender: si as u8, op: id, what: st.op.name() });
         let ticket = issue(&job, &st.op, id, jobno);
         for w in 0..st.waiters {
-            handles.push(tokio::spawn(waiter(ticket.clone(), id, w)));
+            match (w, st.cancel_after) {
+                (0, Some(ms)) => handles.push(tokio::spawn(cancelling_waiter(ticket.clone(), id, w, ms))),
+                _ => handles.push(tokio::spawn(waiter(ticket.clone(), id, w))),
+            }
         }
         if st.inline {
             waiter(ticket, id, 255).await;
@@ -480,7 +494,8 @@ pub fn gen_random(rng: &mut Rng, cfg: &GenCfg) -> E1Scn {
         let op = random_op(rng, &mut sigs, &weights);
         let waiters = if rng.chance(1, 3) { rng.range(1, 3) as u8 } else { (rng.chance(1, 2)) as u8 };
         let inline = rng.chance(1, 5);
-        senders[s].push(Step { gap, op, waiters, inline });
+        let cancel_after = if waiters >= 2 && rng.chance(1, 4) { Some(*rng.pick(&[0u64, 1, 5, 50])) } else { None };
+        senders[s].push(Step { gap, op, waiters, inline, cancel_after });
     }
     let n_children = rng.range(1, 4);
     let mut children = Vec::new();
